@@ -2,8 +2,8 @@ SPECIFICATION Spec
 CONSTANTS
   Cap = 2
   Amount = 4
-  CloseFirst = FALSE
+  CloseFirst = TRUE
   ReadPipeFix = TRUE
   ErrPipeFix = TRUE
-  ReleaseAllFix = TRUE
+  ReleaseAllFix = FALSE
 INVARIANT Reaped
